@@ -68,6 +68,8 @@ func main() {
 	timed("slow-reader (rest of it)", func() { <-slowDone })
 	timed("held-up-delete", func() { runHeldUpDelete(f, res, drv) })
 	timed("overtaken-update", func() { runOvertaken(f, res, drv) })
+	timed("overtaken-delete", func() { runOvertakenDelete(f, res, drv) })
+	timed("trait-collection-stream", func() { runTraitPull(f, res) })
 	timed("writers-and-subscribers (rest of it)", func() {
 		for k, v := range <-latDone {
 			res.Extra[k] = v
@@ -215,6 +217,22 @@ func replay(f lib.Flags) int {
 		}
 		obs := c.runCode()
 		fmt.Printf("replay urun %s -> %s (streams %v)\n", c.key(), obs.answer(), obs.Streams)
+		c.monitor(m, obs)
+	case "odel":
+		var c odelCase
+		if err := json.Unmarshal(raw, &c); err != nil {
+			lib.Fatal(err)
+		}
+		obs := c.runCode()
+		fmt.Printf("replay odel %s -> %s (streams %v)\n", c.key(), obs.answer(), obs.Streams)
+		c.monitor(m, obs)
+	case "tpull":
+		var c tpullCase
+		if err := json.Unmarshal(raw, &c); err != nil {
+			lib.Fatal(err)
+		}
+		obs := c.runCode()
+		fmt.Printf("replay tpull %s -> %s (list %v)\n", c.key(), strings.Join(obs.Got, ";"), obs.Listed)
 		c.monitor(m, obs)
 	case "ropts":
 		var c roptsCase
